@@ -441,7 +441,34 @@ func sioFold(ctx context.Context, file string, r *sio.Result) (map[string]*sioMa
 	}
 	out <- r
 	out <- nil // the consumer goroutine returns; r has been folded and written
+	sioFoldCount++
+	if sioFoldCount%2 == 0 {
+		// an idle session of the host in between: it loads the state file, processes nothing, and writes its state when it
+		// stops (Stdio.Stop) - the file must still hold the crew
+		if err := sioIdleSession(ctx, file); err != nil {
+			return nil, err
+		}
+	}
 	return sioReadStore(file)
+}
+
+var sioFoldCount int
+
+func sioIdleSession(ctx context.Context, file string) error {
+	s := sio.NewStdio(false)
+	s.In = strings.NewReader("")
+	s.Out = io.Discard
+	s.StateInputFilename = file
+	s.StateOutputFilename = file
+	_, out, err := s.IO(ctx)
+	if err != nil {
+		return err
+	}
+	if _, err = s.Read(ctx); err != nil {
+		return err
+	}
+	out <- nil
+	return s.Stop(ctx)
 }
 
 func sioReadStore(file string) (map[string]*sioMach, error) {
